@@ -177,6 +177,7 @@ def scheme_event(s, tid, limit=8000):
     S = int(scale_for(pts, limit))
     ipts = [[sint(x * S), sint(y * S)] for x, y in pts]
     modidx = []
+    held = []
     int_diffs = []
     if s.kind != "oqpsk" and len(labels) == len(pts):
         m = s.mod()
@@ -186,9 +187,11 @@ def scheme_event(s, tid, limit=8000):
             bits = [(L >> (s.b - 1 - i)) & 1 for i in range(s.b)]
             try:
                 y = m(torch.tensor([bits], dtype=torch.float32))
+                held.append(y)                      # results are kept and read only after every label has been modulated
                 z = complex(y.reshape(-1)[0])
                 modidx.append(nearest_index(z, pts) + 1)
             except Exception:
+                held.append(None)
                 modidx.append(0)
             if hasattr(m, "reset_state"):
                 m.reset_state()
@@ -205,5 +208,11 @@ def scheme_event(s, tid, limit=8000):
                 pass
             if hasattr(m, "reset_state"):
                 m.reset_state()
+    # a result handed out earlier must still be the point it was when the later calls are over (no buffer shared between calls)
+    for L, y in enumerate(held):
+        if y is not None and modidx[L] > 0:
+            again = nearest_index(complex(y.reshape(-1)[0]), pts) + 1
+            if again != modidx[L]:
+                modidx[L] = again
     return {"ev": "Scheme", "tid": tid, "name": s.name, "b": s.b, "S": S, "pts": ipts, "labels": labels, "gray": bool(s.gray), "unit": bool(s.unit),
             "modidx": modidx, "slack": 90000, "labels_whose_integer_form_differs": int_diffs}
